@@ -1,4 +1,5 @@
 """C01: decided on operation histories (see DESIGN.md section 7 for what is compared and proved)."""
+from . import _multi
 from ._store import replay_store, run_store
 
 QUICK = [('roundtrip', 60), ('roundtrip_big', 14)]
@@ -6,8 +7,12 @@ THOROUGH = [('roundtrip', 500), ('roundtrip_big', 160)]
 
 
 def run(tier: str):
-    return run_store('C01', tier, QUICK, THOROUGH)
+    rep = run_store('C01', tier, QUICK, THOROUGH)
+    # reads through the slow path of a long-open handle (the third read entry point)
+    rep.failures += _multi.stale_handle_failures('C01', 30 if tier == 'quick' else 400, ('get-wrong', 'bulk-stale', 'bulkseek-wrong', 'add-key'), rep)
+    return rep
 
 
 def replay(path: str) -> int:
-    return replay_store('C01', path)
+    r_ = _multi.replay_multi('C01', path)
+    return r_ if r_ is not None else replay_store('C01', path)
